@@ -80,10 +80,13 @@ def get (s : Sp K) (row col : Nat) : Res (Option K) :=
       | some v => pure (some v)
       | none => do
         let ri ← aget s.rowIndex k
-        let c ← aget ci k
-        if ri == row && c == col then do
-          let v ← aget s.val k
-          pure (some v)
+        -- `&&` short-circuits: `col_index[k]` is read only when the row matches
+        if ri == row then do
+          let c ← aget ci k
+          if c == col then do
+            let v ← aget s.val k
+            pure (some v)
+          else pure none
         else pure none)
     pure r
 
@@ -175,8 +178,10 @@ def insert (s : Sp K) (row col : Nat) (v : K) : Res (Sp K) :=
       | some i => pure (some i)
       | none => do
         let ri ← aget s.rowIndex k
-        let c ← aget ci k
-        if ri == row && c == col then pure (some k) else pure none)
+        if ri == row then do
+          let c ← aget ci k
+          if c == col then pure (some k) else pure none
+        else pure none)
     match hit with
     | some k => do
       let vs ← aset s.val k v
